@@ -461,6 +461,40 @@ func ColdMain(args []string) int {
 	fmt.Sscan(args[2], &g)
 	fmt.Sscan(args[3], &seed)
 	col.VerifSetHook(nil)
+	if a < 0 {
+		// class accessors: every first use happens concurrently in this fresh process
+		ps := allProbes()
+		res := make([][]any, g)
+		for i := range res {
+			res[i] = make([]any, len(ps))
+		}
+		var start, done sync.WaitGroup
+		start.Add(1)
+		for w := 0; w < g; w++ {
+			w := w
+			done.Add(1)
+			go func() {
+				defer done.Done()
+				start.Wait()
+				for k := range ps {
+					i := (k + w*5) % len(ps)
+					res[w][i] = ps[i].get()
+				}
+			}()
+		}
+		start.Done()
+		done.Wait()
+		for i := range ps {
+			for w := 1; w < g; w++ {
+				if res[w][i] != res[0][i] {
+					fmt.Printf("COLD-DIFF two goroutines received different classes for %s at its first use\n", ps[i].name)
+					return 0
+				}
+			}
+		}
+		fmt.Println("COLD-OK")
+		return 0
+	}
 	fams := make([]family, g)
 	seeds := make([]uint64, g)
 	for i := range fams {
@@ -488,12 +522,22 @@ func RunC19Cold(c *core.Ctx, idx int) {
 	pairs := C19Pairs()
 	pr := pairs[idx%len(pairs)]
 	g := []int{2, 4, 8}[(idx/len(pairs))%3]
+	if idx%len(pairs) == 0 {
+		// one slot per round is used for the class accessors at first use
+		pr = [2]int{-1, -1}
+		g = 16
+	}
 	exe, _ := os.Executable()
 	cmd := exec.Command(exe, "cold", fmt.Sprint(pr[0]), fmt.Sprint(pr[1]), fmt.Sprint(g), fmt.Sprint(c.Rng.Uint64()%1000000))
 	cmd.Env = append(os.Environ(), "GORACE=halt_on_error=0")
 	out, _ := cmd.CombinedOutput()
 	s := string(out)
-	cs := map[string]any{"families": []string{families[pr[0]].name, families[pr[1]].name}, "goroutines": g}
+	cs := map[string]any{"goroutines": g}
+	if pr[0] >= 0 {
+		cs["families"] = []string{families[pr[0]].name, families[pr[1]].name}
+	} else {
+		cs["families"] = []string{"class accessors at first use"}
+	}
 	switch {
 	case strings.Contains(s, "WARNING: DATA RACE"):
 		blk := s[strings.Index(s, "WARNING: DATA RACE"):]
@@ -521,7 +565,10 @@ func RunC19Cold(c *core.Ctx, idx int) {
 		c.Violation("independence/transcript-differs/cold-start", clipS(s[strings.Index(s, "COLD-DIFF"):], 600), cs)
 	case strings.Contains(s, "COLD-OK"):
 		c.Cover("cold-start-runs")
-		c.Distinct(core.Mix(0xc01d, uint64(pr[0]), uint64(pr[1]), uint64(g)))
+		c.Distinct(core.Mix(0xc01d, uint64(pr[0]+1), uint64(pr[1]+1), uint64(g)))
+		if pr[0] < 0 {
+			c.Cover("cold-start-class-accessors")
+		}
 		if c.WantSample("cold-start") {
 			c.Sample("cold-start", cs)
 		}
